@@ -162,6 +162,10 @@ def gen_random(rng, prof=None):
             if f["skills"].get(t["name"], 0.0) <= 0.0:
                 f["skills"][t["name"]] = 1.0
             w["fskills"][f["name"]] = 1.0
+    # --- unit rate of automatic tasks (work_amount_progress_of_unit_step_time)
+    for t in tasks:
+        if t["auto"] and rng.random() < 0.35:
+            t["rate"] = rng.choice([0.5, 2.0, 0.3])
     # --- fixed-ID lists (may name ineligible resources)
     if p["fixed_lists"]:
         all_w = [w["id"] for tm in teams for w in tm["workers"]]
